@@ -78,6 +78,8 @@ def _plan(draw, max_rows):
     right = [right[i] for i in draw(st.permutations(range(len(right))))]
     plan = {"left": {"n": nl, "cols": left}, "right": {"n": nr, "cols": right}, "by": by,
             "op": draw(st.sampled_from(OPS))}
+    draw(gen.decorate(plan["left"]))
+    draw(gen.decorate(plan["right"]))
     if mixed:
         plan["mixed"] = True
         plan["op"] = draw(st.sampled_from(["left", "inner", "semi", "anti"]))
